@@ -220,7 +220,8 @@ class Client(base_client.BaseClient):
         for pkt in p.packets[1:]:
             self._receive_packet(pkt)
 
-        if 'websocket' in self.upgrades and 'websocket' in self.transports:
+        if self.state == 'connected' and 'websocket' in self.upgrades and \
+                'websocket' in self.transports:
             # attempt to upgrade to websocket
             if self._connect_websocket(url, headers, engineio_path):
                 # upgrade to websocket succeeded, we're done here
